@@ -517,6 +517,7 @@ fn walk_tokens_self(cx: &mut Ctx, ts: TokenStream) {
 }
 
 struct FnInfo<'x> {
+    in_trait_impl: bool,
     key: String,
     sig: &'x syn::Signature,
     block: Option<&'x syn::Block>,
@@ -615,14 +616,16 @@ fn apply_contract(cx: &mut Ctx, f: &FnInfo, contract: Option<&Value>, mutself: b
             let pos = i.get("pos").and_then(|v| v.as_str()).unwrap_or("before");
             let text = i.get("text").and_then(|v| v.as_str()).unwrap_or("");
             let n = body.matches(anchor).count();
-            if n != 1 || anchor.is_empty() {
+            let occ = i.get("occurrence").and_then(|v| v.as_u64());
+            let expect = i.get("of").and_then(|v| v.as_u64()).unwrap_or(1) as usize;
+            if n != expect || anchor.is_empty() || occ.map(|o| o as usize >= n).unwrap_or(false) {
                 cx.errors.push(format!(
-                    "ANCHOR-LOST {}: anchor {:?} occurs {} times",
-                    f.key, anchor, n
+                    "ANCHOR-LOST {}: anchor {:?} occurs {} times (expected {})",
+                    f.key, anchor, n, expect
                 ));
                 continue;
             }
-            let at = bs + body.find(anchor).unwrap();
+            let at = bs + body.match_indices(anchor).nth(occ.unwrap_or(0) as usize).unwrap().0;
             let line = cx.line_of(at);
             let off = match pos {
                 "before" => cx.line_starts[line - 1],
@@ -898,6 +901,7 @@ fn main() {
             match it {
                 syn::Item::Fn(f) => {
                     fninfos.push(FnInfo {
+                        in_trait_impl: false,
                         key: f.sig.ident.to_string(),
                         sig: &f.sig,
                         block: Some(&f.block),
@@ -931,6 +935,7 @@ fn main() {
                                         _ => format!("{}::{}", ty, n),
                                     };
                                     fninfos.push(FnInfo {
+                                        in_trait_impl: tr.is_some(),
                                         key,
                                         sig: &f.sig,
                                         block: Some(&f.block),
@@ -985,6 +990,7 @@ fn main() {
                                 cx.push(a, b, "", "R0.dropfn");
                             } else {
                                 fninfos.push(FnInfo {
+                                    in_trait_impl: false,
                                     key: format!("{}::{}", t.ident, n),
                                     sig: &f.sig,
                                     block: f.default.as_ref(),
@@ -1022,6 +1028,7 @@ fn main() {
                     "end_line": cx.line_of(b.saturating_sub(1)),
                     "orig": &src[a..b],
                     "has_contract": c.is_some(),
+                    "in_trait_impl": f.in_trait_impl,
                 }));
             }
             // generic rewrites over the item; boolops per fn
